@@ -25,11 +25,14 @@ def cleanUpState : M Unit := do
     match x.parentUid with
     | some p =>
       match ← getInstX? p with
-      -- REPAIRED behaviour (fixes/C09-cleanup-duplicate-child.diff; on the unpatched tree this is the region of the open finding
+      -- REPAIRED behaviour (fixes/C09-cleanup-dangling-references.diff; on the unpatched tree this is the region of the open finding
       -- `dangling-child`): every occurrence is removed (a flow activated n times is listed n times)
       | some px => if px.childFlowUids.contains u then modInstX p fun y => { y with childFlowUids := y.childFlowUids.filter (· ≠ u) }
       | none => pure ()
     | none => pure ()
+    -- REPAIRED behaviour (same diff; region of the open finding `dangling-scope-flow`): open scopes drop the removed flow
+    modifyRest fun r => { r with fx := r.fx.map fun (fu, y) =>
+      (fu, { y with scopes := y.scopes.map fun (n, (fl, al)) => (n, (fl.filter (· ≠ u), al)) }) }
     modifyRest fun r => { r with idStates := OMap.modify x.flowId (listRemoveFirst u) r.idStates, fx := OMap.erase u r.fx }
     applyOp (.removeInst u)
   -- remove all actions that are no longer referenced
@@ -539,5 +542,9 @@ def runToCompletion (fuel : Nat) (ev : Match.Ev) : M Unit := do
   modifyRest fun r => { r with queue := [{ ev := ev }], outgoing := [], cleared := [], caught := [] }
   cleanUpState
   mainLoop fuel []
+  -- exit assertion of the MODEL (not a statement of the Python code): an instance left STOPPING would mean that an `abort`
+  -- was never followed by `_abort_flow`; the model does not go on in that case (the oracle checks the same on the real state)
+  let ix ← getIx
+  if ix.insts.any (fun i => i.status = .stopping) then throw (.guardFailed "an instance is left STOPPING at the exit of run_to_completion")
 
 end NemoVerif.CoreVM
